@@ -193,6 +193,9 @@ func splatPly(c *run.Ctx) (res run.Result) {
 	res.Nontrivial = n >= 1
 	res.SetAdd("splatply/configs", fmt.Sprintf("rest%d/normals:%v", rest, withNormals))
 	res.SetAdd("splatply/counts", nBucket(n))
+	if n >= 1 { // f_rest_0 … f_rest_{rest-1}: the higher-order harmonics of SH degree 0 / 1 / 2 / 3
+		res.Count(fmt.Sprintf("splatply/clouds_with_sh_degree_%d", map[int]int{0: 0, 9: 1, 24: 2, 45: 3}[rest]), 1)
+	}
 
 	exported := checkSplatPly(c, &res, pc, "")
 	if c.Case < 2 && n > 0 {
@@ -267,7 +270,11 @@ func checkSplatPly(c *run.Ctx, res *run.Result, pc *plyCloud, ctx string) (expor
 	c.SaveInput(data)
 	var back *modeling.Mesh
 	var rerr error
-	if p := run.Try(func() { back, rerr = ply.ReadMesh(bytes.NewReader(data)) }); p != nil {
+	rd, kind, release := openKind(c, res, "ply.ReadMesh", "ply.SplatPly.Write→ply.ReadMesh"+ctx, data)
+	p := run.Try(func() { back, rerr = ply.ReadMesh(rd) })
+	release()
+	input += ", export read through " + kind
+	if p != nil {
 		res.Violate("panic", "ply.SplatPly.Write→ply.ReadMesh"+ctx, input, p.Value+"\n"+p.Stack, nil)
 		return
 	}
